@@ -77,18 +77,22 @@ func (sh *SearchHistory) Load() error {
 		return nil
 	}
 
-	maxSize := sh.MaxSize
-	err = json.Unmarshal(data, sh)
+	// Decode into a fresh value, not into the live struct: encoding/json would merge the
+	// file into the existing Entries slice, so fields omitted from the file (context,
+	// duration) would keep the values of whatever entry occupied that slot before.
+	var loaded SearchHistory
+	if err := json.Unmarshal(data, &loaded); err != nil {
+		return fmt.Errorf("failed to parse history file: %w", err)
+	}
+	sh.Entries = loaded.Entries
+
 	// The file may carry a nonsensical max_size (zero or negative); never let it
 	// replace a usable limit, or AddEntry would drop every entry or slice out of range.
-	if sh.MaxSize <= 0 {
-		sh.MaxSize = maxSize
-		if sh.MaxSize <= 0 {
-			sh.MaxSize = 100
-		}
+	if loaded.MaxSize > 0 {
+		sh.MaxSize = loaded.MaxSize
 	}
-	if err != nil {
-		return fmt.Errorf("failed to parse history file: %w", err)
+	if sh.MaxSize <= 0 {
+		sh.MaxSize = 100
 	}
 
 	return nil
